@@ -4,7 +4,7 @@ import json, os
 from common import *
 import scen
 
-DEV_DEFAULT = {"DevPlainNoReduce": "FALSE", "DevAmendStaleLookup": "FALSE", "DevZeroDisplaySpin": "FALSE"}
+DEV_DEFAULT = {"DevPlainNoReduce": "FALSE", "DevAmendStaleLookup": "FALSE", "DevZeroDisplaySpin": "FALSE", "DevStatsOwnPrice": "FALSE"}
 
 # which trace-monitor tags decide which property
 CONC_MON = {"C03": {"C03", "C01", "PANIC"}, "C08": {"C08", "HANG", "PANIC"}, "C12": {"C12"}, "C13": {"C13"},
@@ -184,7 +184,14 @@ def check_conc(prop, tier):
         if prop == "C15":
             # the single-threaded half of the quantifier: random histories over all kinds, judged by LevelSeq!P_C15
             n = 120 if tier == "quick" else 3000
-            hq = [scen.seq_scenario(scen.seq_history(rng, rng.range(15, 45), nids=rng.choice([3, 4, 6]), monotone_ts=True, zero_ok=False)) for _ in range(n)]
+            hq = [scen.seq_scenario(scen.seq_history(rng, rng.range(15, 45), nids=rng.choice([3, 4, 6]), monotone_ts=True, zero_ok=False, vary_px=(k % 2 == 1))) for k in range(n)]
+            # regression witness (D9): the instance that books executions at the maker's own price must violate C15
+            cfg9 = seq_cfg(work, "mc9", "MCSeq_quick", ["Inv_C15"], subst={"DevStatsOwnPrice": "TRUE"})
+            r9 = tlc("MCSeq", cfg9, work, workers=8, timeout=3000)
+            if "Inv_C15" not in r9["violated"]:
+                raise ToolError("regression witness: the model instance with DevStatsOwnPrice (D9) must violate Inv_C15")
+            r9ok = require_ok(tlc("MCSeq", seq_cfg(work, "mc9ok", "MCSeq_quick", ["Inv_C15"]), work, workers=8, timeout=3000), "sequential model check of C15")
+            res.add(states=r9ok["distinct"], transitions=r9ok["generated"], witness_D9="Inv_C15")
             h5 = run_harness("level", hq, work, "c15seq", timeout=3000)
             s5 = tv(h5["trace"], "MCTraceSeq", "TraceSeq", work, timeout=6000)
             res.add(sequential_histories=s5["execs"], sequential_calls=s5["calls"], traces_validated_against_impl=s5["execs"])
@@ -328,6 +335,7 @@ def check_seq(prop, tier):
             replays += rb["prints"].get("EDGE", [])
         # 2. regression witnesses / non-vacuity
         wit = {"C01": ("DevPlainNoReduce", "D1"), "C02": ("DevPlainNoReduce", "D1"), "C06": ("DevZeroDisplaySpin", "D4")}
+        # (C15 is decided by check_conc; its sequential regression witness DevStatsOwnPrice / D9 is run there)
         if prop in wit:
             flag, d = wit[prop]
             cfgw = seq_cfg(work, "mcw", "MCSeq_quick", SEQ_INV[prop], subst={flag: "TRUE"})
@@ -396,7 +404,8 @@ def check_seq(prop, tier):
         n = 150 if tier == "quick" else 4000
         hs2 = []
         for i in range(n):
-            hs2.append(scen.seq_scenario(scen.seq_history(rng, rng.range(15, 45), nids=rng.choice([3, 4, 6]), monotone_ts=(i % 2 == 0), zero_ok=(i % 3 != 0))))
+            # every fourth history: orders whose own price field differs from the level's (add_order does not check it)
+            hs2.append(scen.seq_scenario(scen.seq_history(rng, rng.range(15, 45), nids=rng.choice([3, 4, 6]), monotone_ts=(i % 2 == 0), zero_ok=(i % 3 != 0), vary_px=(i % 4 == 1))))
         h2 = run_harness("level", hs2, work, "tv", timeout=3000)
         s2 = tv(h2["trace"], "MCTraceSeq", "TraceSeq", work, timeout=6000)
         res.add(traces_validated_against_impl=s2["execs"], calls_validated=s2["calls"], calls_conforming=s2["conform"],
